@@ -781,6 +781,38 @@ class IntervalEval:
             return AIter(self.apply(args[1], [a0.elem], n), a0.maxlen, a0.minlen)
         if base == "map" and isinstance(a0, AOpt):
             return AOpt(a0.none, self.apply(args[1], [a0.some], n) if a0.some is not None else None)
+        if base == "map_or" and isinstance(a0, AOpt) and len(args) == 3:
+            # o.map_or(d, f): d when None, f(payload) when Some
+            out = None
+            if a0.none:
+                out = args[1]
+            if a0.some is not None:
+                r = self.apply(args[2], [a0.some], n)
+                out = r if out is None else join(out, r)
+            return out if out is not None else args[1]
+        if base in ("unwrap_or",) and isinstance(a0, AOpt) and len(args) == 2:
+            out = args[1] if a0.none else None
+            if a0.some is not None:
+                out = a0.some if out is None else join(out, a0.some)
+            return out if out is not None else args[1]
+        if base == "then_some" and isinstance(a0, ABool) and len(args) == 2:
+            return AOpt(True, args[1])
+        if base in ("take_while", "skip_while") and isinstance(a0, AIter) and isinstance(args[1], AClosure):
+            # the elements that are kept by take_while satisfy the predicate: refine the element by the closure's condition
+            fv = args[1]
+            cenv = dict(fv.env)
+            cenv.pop("__diverged__", None)
+            names = []
+            for p_ in fv.node["params"]:
+                self.bind(p_, a0.elem, cenv)
+                names += [x["name"] for x in walk(p_) if x.get("k") == "bind"]
+            self.eval(fv.node["body"], dict(cenv))
+            elem = a0.elem
+            if base == "take_while" and len(names) == 1:
+                et, _ = self.refine(fv.node["body"], cenv)
+                if names[0] in et:
+                    elem = et[names[0]]
+            return AIter(elem, a0.maxlen, 0)
         if base in ("filter_map", "map_while") and isinstance(a0, AIter):
             r = self.apply(args[1], [a0.elem], n)
             return AIter(r.some if isinstance(r, AOpt) and r.some is not None else ATop(""), a0.maxlen, 0)
